@@ -29,6 +29,8 @@ from falcon._typing import ProcessRequestMethod as PRequest
 from falcon._typing import ProcessResourceMethod as PResource
 from falcon._typing import ProcessResponseMethod as PResponse
 from falcon.constants import MEDIA_JSON
+from falcon.constants import MEDIA_MULTIPART
+from falcon.constants import MEDIA_URLENCODED
 from falcon.constants import MEDIA_XML
 from falcon.errors import CompatibilityError
 from falcon.errors import HTTPError
@@ -297,7 +299,15 @@ def default_serialize_error(req: Request, resp: Response, exception: HTTPError) 
         if options.xml_error_serialization
         else [MEDIA_JSON]
     )
-    media_handlers = [mt for mt in options.media_handlers if mt not in predefined]
+    # NOTE: the form handlers are not offered to the client: the multipart one
+    #   cannot serialize at all (the error would turn into a 500), and a
+    #   URL-encoded form cannot represent the error document faithfully.
+    unsuitable = (MEDIA_MULTIPART, MEDIA_URLENCODED)
+    media_handlers = [
+        mt
+        for mt in options.media_handlers
+        if mt not in predefined and mt not in unsuitable
+    ]
     # NOTE(caselit,vytas): Add the registered handlers after the predefined
     #   ones. This ensures that in the case of an equal match, the first one
     #   (JSON) is selected and that the q parameter is taken into consideration
